@@ -1,4 +1,9 @@
-use async_graphql_parser::types::{ExecutableDocument, OperationDefinition, VariableDefinition};
+use std::collections::HashMap;
+
+use async_graphql_parser::{
+    Pos,
+    types::{ExecutableDocument, FragmentSpread, OperationDefinition, VariableDefinition},
+};
 use async_graphql_value::Name;
 
 use crate::{
@@ -12,6 +17,10 @@ pub struct ComplexityCalculate<'ctx, 'a> {
     pub complexity: &'a mut usize,
     pub complexity_stack: Vec<usize>,
     pub variable_definition: Option<&'ctx [Positioned<VariableDefinition>]>,
+    /// The complexity of the fragments visited in the current operation.
+    fragment_complexity: HashMap<&'ctx str, usize>,
+    /// The spreads whose fragment is being visited.
+    open_spreads: Vec<Pos>,
 }
 
 impl<'a> ComplexityCalculate<'_, 'a> {
@@ -20,6 +29,8 @@ impl<'a> ComplexityCalculate<'_, 'a> {
             complexity,
             complexity_stack: Default::default(),
             variable_definition: None,
+            fragment_complexity: Default::default(),
+            open_spreads: Default::default(),
         }
     }
 }
@@ -44,6 +55,43 @@ impl<'ctx> Visitor<'ctx> for ComplexityCalculate<'ctx, '_> {
         operation_definition: &'ctx Positioned<OperationDefinition>,
     ) {
         self.variable_definition = Some(&operation_definition.node.variable_definitions);
+        // the complexity of a fragment depends on the variables of the operation
+        self.fragment_complexity.clear();
+    }
+
+    fn enter_fragment_spread(
+        &mut self,
+        _ctx: &mut VisitorContext<'ctx>,
+        fragment_spread: &'ctx Positioned<FragmentSpread>,
+    ) {
+        match self
+            .fragment_complexity
+            .get(fragment_spread.node.fragment_name.node.as_str())
+            .copied()
+        {
+            // the fragment has been visited before and is not visited again
+            Some(complexity) => *self.complexity_stack.last_mut().unwrap() += complexity,
+            None => {
+                self.open_spreads.push(fragment_spread.pos);
+                self.complexity_stack.push(0);
+            }
+        }
+    }
+
+    fn exit_fragment_spread(
+        &mut self,
+        _ctx: &mut VisitorContext<'ctx>,
+        fragment_spread: &'ctx Positioned<FragmentSpread>,
+    ) {
+        if self.open_spreads.last() == Some(&fragment_spread.pos) {
+            self.open_spreads.pop();
+            let complexity = self.complexity_stack.pop().unwrap();
+            self.fragment_complexity.insert(
+                fragment_spread.node.fragment_name.node.as_str(),
+                complexity,
+            );
+            *self.complexity_stack.last_mut().unwrap() += complexity;
+        }
     }
 
     fn enter_field(&mut self, _ctx: &mut VisitorContext<'_>, _field: &Positioned<Field>) {
